@@ -44,11 +44,11 @@ architecture rtl of ent is
 
 begin
 
-  %(sig)s <= %(port)s and %(const)s;
+  %(sig_use)s <= %(port_use)s and %(const)s;
 
   u_x : entity work.x
     port map (
-      %(formal)s => %(sig)s,
+      %(formal)s => %(sig_use)s,
       DATA   => "AbC"
     );
 
@@ -73,6 +73,8 @@ def e2e_cases(tables):
     def add(name, subst, conf):
         d = dict(base)
         d.update(subst)
+        d.setdefault("sig_use", d["sig"])  # the spelling at the places of use (default: as declared)
+        d.setdefault("port_use", d["port"])
         out.append({"name": name, "text": ARCH % d, "config": conf})
 
     add("plain-lower", {}, {})
@@ -81,6 +83,9 @@ def e2e_cases(tables):
     add("micro-upper", {"const": "c_µs"}, case_config(tables, "upper"))
     add("extended-default", {"sig": "\\MySig\\", "port": "\\Clk_In\\", "formal": "\\Clk_In\\"}, {})
     add("extended-upper", {"sig": "\\MySig\\"}, case_config(tables, "upper"))
+    # `\\mysig\\` is NOT the declared `\\MySig\\` (extended identifiers are case-sensitive): the consistent_* rules must not
+    # "correct" it, whatever the token_case rules do
+    add("extended-distinct", {"sig": "\\MySig\\", "sig_use": "\\mysig\\", "port": "\\Clk_In\\", "port_use": "\\clk_in\\", "formal": "\\CLK_IN\\"}, {})
     add("upper_or_lower", {}, case_config(tables, "upper_or_lower"))
     add("formal-upper_or_lower", {}, {"rule": {"port_map_002": {"case": "upper_or_lower"}}})
     add("prefix-suffix-overlap", {"sig": "I_I"}, {"rule": {"signal_004": {"prefix_exceptions": ["i_"], "suffix_exceptions": ["_i"]}}})
@@ -105,7 +110,11 @@ def fold_s(v):
 
 def judge_value_change(va, vb, cls_name):
     """kind of a value change made by a case rule on the real code, None if it is case-only"""
-    if va.startswith("\\") or va.endswith("\\"):
+    # `Tok.exact` of the Lean checker: a value that starts with a quote or a backslash compares exactly UNLESS the token is a
+    # bit-string value (kind codeCI).  The synthetic direct calls of check_for_case_violation under the rule name
+    # "bit_string_literal" are judged as bit-string tokens (hypothesis `TokOk.bitString`; the two rules of that name only
+    # look at bit-string classes: C03.case_rule_targets_are_code), so a backslash there is not an extended identifier.
+    if cls_name != "bit_value_string" and (va.startswith("\\") or va.endswith("\\")):
         return ("C03", "extendedIdentifierChanged")
     if va.startswith(('"', "'")) and cls_name != "bit_value_string":
         return ("C03", "literalChanged")
@@ -322,7 +331,7 @@ def run(prop, tier):
     res.assumptions = [
         "the theorems quantify over the interpreter's str.lower/str.upper under explicit hypotheses (character-wise, fold-invariant: CharWise), discharged for ASCII; CPython violates them for the code points of Gen.upperMultiMap / lowerMultiMap ('ß' -> 'SS')",
         "the final-sigma rule of str.lower() is not modelled (driver answers `unmodelled` for strings with U+03A3)",
-        "token extraction (get_tokens_matching …) and the region logic of the consistent_* analyses are not modelled: the theorems take the analysed region as given; `TokOk` (code token, not an extended identifier) is a hypothesis, tied to the rule table by C03.case_rule_targets_are_code",
+        "token extraction (get_tokens_matching …) and the region logic of the consistent_* analyses are not modelled: the theorems take the analysed region as given; `TokOk` (code token; for the two bit_string_literal rules a bit-string token) is a hypothesis, tied to the rule table by C03.case_rule_targets_are_code; extended identifiers are no longer excluded (the repaired analyses skip them: C03.bfull_case_extended_identifier_untouched)",
         "isinstance tests of the formal-part loop are modelled as class equality (the four classes have no subclasses)",
     ]
     return res.finish(max(nobl, 1), ndis, "cd lean && lake build VsgProofs.Properties.C03 VsgProofs.Properties.C01 VsgProofs.Properties.C02 VsgProofs.Properties.C07 VsgProofs.Properties.C10", thms)
